@@ -20,11 +20,11 @@ def build(ck):
 RULE = ("all histories of <= D steps over {stop, tick (<= 4), set_heart_beat(X,0|1|2) for 4 objects, destruct(X), clone a "
         "heart-beat object (2 programs, interval 1|2), an uncaught error raised by a driver-level apply in an unrelated object "
         "without heart beat, a call_out of that object that raises in the call_out phase of the next tick, reload_object(X) whose "
-        "create() enables the heart beat again} from each of 27 initial populations (O0..O2 each off/1/2; O0 is a "
+        "create() enables the heart beat again, X destructs itself and then calls set_heart_beat(1) on its destructed self} from each of 27 initial populations (O0..O2 each off/1/2; O0 is a "
         "blueprint, O1 O2 clones, +1 object cloned during the history), on the real src/backend.c driven as backend() does "
         "(call_heart_beat inside save_context/setjmp/restore_context, remove_destructed_objects after each tick); deviations "
         "(budget B) chosen at the moment a heart_beat is invoked inside a round: its script {self off, other->set_heart_beat"
-        "(0|1|2) x 3 others, destruct self, destruct other x 3, clone (3 kinds), error(), set_heart_beat(1|2) on itself, reload_object(any of 4)} and the timer firing (H1 sets "
+        "(0|1|2) x 3 others, destruct self, destruct other x 3, clone (3 kinds), error(), set_heart_beat(1|2) on itself, reload_object(any of 4), destruct self then set_heart_beat(1|2)} and the timer firing (H1 sets "
         "heart_beat_flag) at the k-th instruction from there (k <= K); 3 undisturbed epilogue ticks; oracle = LPC (tick,object) "
         "log vs lock-step cadence model + query_heart_beat/heart_beats() vs model + round cursor in bounds and pointing at the "
         "called object at every call and every instruction; canonical state at step boundaries = driver list (object, interval, "
